@@ -343,6 +343,15 @@ impl InterfaceInner {
 
                 let payload_length = packet.header.payload_len;
 
+                // The datagram_size field of the fragment headers has 11 bits (RFC 4944 5.3).
+                if payload_length + 40 > 0x7ff {
+                    net_debug!(
+                        "dispatch_ieee802154: dropping, \
+                        datagrams of more than 2047 octets cannot be fragmented"
+                    );
+                    return;
+                }
+
                 Self::ipv6_to_sixlowpan(
                     &self.checksum_caps(),
                     packet,
